@@ -34,6 +34,9 @@ def eval_term(t, env):
         return getattr(eval_term(t[1], env), t[2])(*[dec(a) for a in t[3]])
     if k == "const":
         return dec(t[1])
+    if k == "subq":
+        # an(entity(v, c)) used as a value: the value of v (that c holds is the business of whoever evaluates the term)
+        return env[t[1]]
     raise ValueError(f"unknown term {t!r}")
 
 
@@ -104,6 +107,8 @@ def cond_vars(c) -> set:
 
 def term_vars(t) -> set:
     if t[0] == "var":
+        return {t[1]}
+    if t[0] == "subq":
         return {t[1]}
     if t[0] == "const":
         return set()
@@ -192,6 +197,8 @@ def r_term(t) -> str:
         return repr(dec(t[1]))
     if k == "flat":
         return f"flatten({r_term(t[1])})"
+    if k == "subq":
+        return f"an(entity(v{t[1]}, {r_cond(t[2])}))"
     return str(t)
 
 
